@@ -414,7 +414,12 @@ fn main() {
                 let (rules, data) = {
                     let mut g = gen::Gen { r: &mut rr, cfg: cfg.clone() };
                     let doc = g.doc();
-                    let prog = g.program(&doc);
+                    let mut prog = g.program(&doc);
+                    // rule names of different lengths from one rules file to the next
+                    if k % 2 == 1 {
+                        let first = prog["rules"][0]["n"].as_str().unwrap().to_string();
+                        gv::xform::rename_rule(&mut prog, &first, &format!("{}_{}", first, "x".repeat(1 + k % 17)));
+                    }
                     (render::render_file(&prog), val::to_json_text(&doc))
                 };
                 let template = {
@@ -423,7 +428,16 @@ fn main() {
                 };
                 jobs.push((rules, data, template));
             }
-            let kinds = ["run_checks", "run_checks-verbose", "parse-tree", "rulegen"];
+            // the command line in-process needs files
+            let mut files: Vec<(String, String)> = Vec::new();
+            for (j, (rules, data, _)) in jobs.iter().enumerate() {
+                let rp = format!("{}/rep_{}_{}.guard", scratch, std::process::id(), j);
+                let dp = format!("{}/rep_{}_{}.json", scratch, std::process::id(), j);
+                std::fs::write(&rp, rules).unwrap();
+                std::fs::write(&dp, data).unwrap();
+                files.push((rp, dp));
+            }
+            let kinds = ["run_checks", "run_checks-verbose", "parse-tree", "rulegen", "validate-console", "validate-console-verbose", "validate-structured-json"];
             let mut res: Vec<Vec<Vec<J>>> = vec![vec![Vec::new(); kinds.len()]; n];
             let text_of = |x: Result<Result<String, String>, String>| match x {
                 Ok(Ok(s)) => format!("ok:{}", s),
@@ -437,6 +451,9 @@ fn main() {
                         text_of(exec::run_checks_raw(rules, data, true)),
                         exec::parse_tree_text(rules),
                         gv::rulegen::run_rulegen(template, scratch).to_string(),
+                        exec::cli_in_process(&["validate", "-r", &files[j].0, "-d", &files[j].1, "-S", "all"], ""),
+                        exec::cli_in_process(&["validate", "-r", &files[j].0, "-d", &files[j].1, "-S", "all", "-v"], ""),
+                        exec::cli_in_process(&["validate", "-r", &files[j].0, "-d", &files[j].1, "--structured", "-o", "json", "-S", "none"], ""),
                     ];
                     for (k, o) in outs.iter().enumerate() {
                         let mut ls: Vec<&str> = o.lines().collect();
@@ -446,15 +463,31 @@ fn main() {
                     }
                 }
             }
+            for (rp, dp) in &files {
+                let _ = std::fs::remove_file(rp);
+                let _ = std::fs::remove_file(dp);
+            }
             let mut f = std::io::BufWriter::new(std::fs::File::create(out).unwrap());
             let mut i = 0usize;
             for j in 0..n {
                 for (k, kind) in kinds.iter().enumerate() {
                     i += 1;
-                    let class = if *kind == "rulegen" { "rulegen" } else { "bytes" };
+                    let class = if *kind == "rulegen" { "rulegen" } else if kind.starts_with("validate-console") { "console" } else { "bytes" };
                     let line = json!({"i": i, "cmd": "lib", "mode": kind, "class": class, "where": "in-process", "job": j,
                                       "runs": res[j][k]});
                     writeln!(f, "{}", line).unwrap();
+                }
+            }
+        }
+        "cli-repeat" => {
+            // debugging / replay aid: the command lines given on stdin (one JSON array of arguments per
+            // line) executed in-process, the whole list `rounds` times; prints every output
+            let rounds: usize = m.get("rounds").and_then(|s| s.parse().ok()).unwrap_or(2);
+            let cmds: Vec<Vec<String>> = std::io::stdin().lock().lines().map(|l| serde_json::from_str(&l.unwrap()).unwrap()).collect();
+            for round in 0..rounds {
+                for (k, c) in cmds.iter().enumerate() {
+                    let a: Vec<&str> = c.iter().map(|x| x.as_str()).collect();
+                    println!("{}", json!({"round": round, "cmd": k, "out": exec::cli_in_process(&a, "")}));
                 }
             }
         }
@@ -462,7 +495,7 @@ fn main() {
             let seed: u64 = m.get("seed").and_then(|s| s.parse().ok()).unwrap_or(1);
             let i: usize = m.get("i").and_then(|s| s.parse().ok()).unwrap_or(0);
             let c = gv::fuzz::case(seed, i);
-            println!("{}", json!({"i": i, "kind": c.kind, "rules": c.rules, "data": c.data, "template": c.template}));
+            println!("{}", json!({"i": i, "kind": c.kind, "known_invalid": c.known_invalid, "rules": c.rules, "data": c.data, "template": c.template}));
         }
         "fuzz-worker" => {
             // C08: cases [from, to) of the (seed, index) case function through the library entry
@@ -483,7 +516,7 @@ fn main() {
                 f.flush().unwrap();
                 let c = gv::fuzz::case(seed, i);
                 let pt = exec::parse_tree_text(&c.rules);
-                let accepted = !(pt.starts_with("err:") || pt.starts_with("panic:"));
+                let accepted = !(pt.starts_with("err:") || pt.starts_with("panic:")) && !c.known_invalid;
                 cfn_guard::verif_hooks::enable(true);
                 let _ = cfn_guard::verif_hooks::drain();
                 let lib = brief(exec::run_checks_raw(&c.rules, &c.data, false));
